@@ -996,6 +996,16 @@ def cases(rng, ctx):
     bnd |= {1, -1, 15, 16, 255, 256, -255, -256, H - 1, -H, 10 ** 12, -10 ** 12}
     for x in sorted(bnd):
         out.append({'kind': 'hexrt', 'n': x})
+    # numbers arriving as numeric TEXT (signed, padded): the integer they spell, as everywhere
+    for f, want in [('DEC2HEX("-54")', 'FFFFFFFFCA'), ('HEX2DEC(DEC2HEX("-54"))', -54), ('HEX2DEC(DEC2HEX(" -1 "))', -1), ('DEC2HEX("+255")', 'FF'),
+                    ('HEX2DEC(DEC2HEX("-549755813888"))', -549755813888), ('ROUND(1234.5,"-2")', 1200.0), ('ROUNDUP(1234.5,"-2")', 1300),
+                    ('ROUNDDOWN("1234.5","-2")', 1200), ('BASE("255","16")', 'FF'), ('DECIMAL(BASE("255",16),"16")', 255),
+                    ('ROMAN("499","0")', 'CDXCIX'), ('ARABIC(ROMAN("1994"))', 1994), ('QUOTIENT("-7","2")', -3), ('MOD("-7","3")', 2),
+                    ('FACT("5")', 120), ('EVEN("-3")', -4), ('CEILING("-5.5","2")', -4), ('FLOOR("-5.5","-2")', -4)]:
+        out.append({'kind': 'formula', 'f': f, 'want': want})
+    for _ in range(40 * sc):
+        x = -rng.randrange(1, H)
+        out.append({'kind': 'formula', 'f': 'HEX2DEC(DEC2HEX("%d"))' % x, 'want': x})
     n = (1000000 if thorough else 100000) * sc
     for _ in range(n):
         out.append({'kind': 'hexrt', 'n': rng.randrange(-H, H)})
